@@ -13,10 +13,14 @@ variable {α : Type}
 def RSmall (c : Nat) (x : Small α) (l : List α) : Prop :=
   if x.tagS then RSVec c x.st l else RVec x.dy l
 
-/-- every operation of the alphabet; `push_back(x[i])` is not part of it for this kind -/
+/-- every operation of the alphabet except `x.push_back(x[i])` on an object that holds exactly `DIM` elements
+    (there the argument dangles after the internal resize: `Small.pushAt`) -/
 def smallOk (c : Nat) : Option (List α) → Op α → Prop
-  | _, .pushAt _ _ => False
+  | some l, .pushAt _ i => i < l.length → l.length ≠ c
   | _, _ => True
+
+instance decSmallOk (c : Nat) (st : Option (List α)) (op : Op α) : Decidable (smallOk c st op) := by
+  cases st <;> cases op <;> simp only [smallOk] <;> infer_instance
 
 namespace Small
 
@@ -287,7 +291,23 @@ theorem small_sim (c : Nat) (zero : α) : Sim (smallImpl c zero) (stdSpec zero) 
         simp [hyl]
       · simp only [Small.push, hc, if_false, ht, Bool.false_eq_true, RSmall]
         exact (vec_sim zero).push s a _ _ L M trivial hx
-  pushAt := fun s i x y L M hok _ _ => by simp [smallOk] at hok
+  pushAt := fun s i x y L M hok h hi => by
+    have hne : y.length ≠ c := hok hi
+    have hsz := h.size_eq
+    have hc : ¬ x.size = c := by omega
+    show RSmall c (Small.pushAt c zero x i L).1 ((stdSpec zero).pushAt y i M).1
+    cases ht : x.tagS with
+    | true =>
+      have hx := (rsmall_st ht).mp h
+      have hxs : x.size = x.st.size := by simp [Small.size, ht]
+      have hlt : y.length + 1 ≤ c := by have := hx.le; omega
+      simp only [Small.pushAt, hc, if_false, ht, if_true, RSmall]
+      have := (svec_sim c zero).pushAt s i _ _ L M trivial hx hi
+      have hi' : i < y.length := hi
+      simpa [boundedSpec, stdSpec, hlt, svecImpl, List.getElem?_eq_getElem hi'] using this
+    | false =>
+      simp only [Small.pushAt, hc, if_false, ht, Bool.false_eq_true, RSmall]
+      exact (vec_sim zero).pushAt s i _ _ L M trivial ((rsmall_dy ht).mp h) hi
   resize := fun s n x y L M _ h => by
     show RSmall c (Small.resize c zero x n L).1 (listResize zero y n)
     cases ht : x.tagS with
